@@ -143,6 +143,12 @@ def quant_genexp(eng, gen, st, universal):
             xs = [fresh("qx") for _ in range(src.arity)]
             val = IntV(xs[0]) if src.arity == 1 else TupV([IntV(x) for x in xs])
             dom = B(src.contains(val))
+        elif isinstance(src, SeqV) and src.kind == "range" and "lo" in src.meta:
+            # quantify over the VALUE of a range element directly (no index offset arithmetic)
+            i = fresh("qv")
+            xs = [i]
+            dom = z3.And(i >= src.meta["lo"], i < src.meta["hi"])
+            val = IntV(i)
         else:
             seq = eng.as_seq(src, s2)
             i = fresh("qi")
@@ -236,8 +242,8 @@ def method_call(eng, node, st, preargs=None):
         if target is None:
             raise Unsupported(f"{cname}.{mname} not found")
         q = target.qualname
-        if target.kind in ("staticmethod", "classmethod"):
-            return eng.call_by_contract(q, args, st=st, kwargs=kwargs)
+        if target.kind == "classmethod":
+            return eng.call_by_contract(q, [NONE] + args, st=st, kwargs=kwargs)  # contract's first parameter is `cls`
         return eng.call_by_contract(q, args, st=st, kwargs=kwargs)
     if cls is None:
         raise Unsupported(f"method .{mname} on {base!r}")
@@ -277,7 +283,17 @@ def b_range(eng, st, a, kw):
     return SeqV(n, lambda i: IntV(lo - i), "range")
 
 
+def b_tee(eng, st, a, kw):
+    # itertools.tee(iterable, n): n independent iterators over the same items (a re-iterable
+    # sequence here; one-shot iterators are the bounded layer's business)
+    n = a[1].concrete() if len(a) > 1 and isinstance(a[1], IntV) else 2
+    return TupV([a[0]] * n)
+
+
 def b_enumerate(eng, st, a, kw):
+    if isinstance(a[0], TupV):
+        start = (a[1].concrete() if len(a) > 1 and isinstance(a[1], IntV) else 0) or 0
+        return TupV([TupV([IntV(start + k), item]) for k, item in enumerate(a[0].items)])
     seq = eng.as_seq(a[0], st)
     start = Z(a[1]) if len(a) > 1 else Z(kw.get("start", 0))
     return SeqV(seq.n, lambda i: TupV([IntV(start + i), seq.at(i)]), "gen")
@@ -543,6 +559,8 @@ SIMPLE = {
     "len": b_len,
     "range": b_range,
     "enumerate": b_enumerate,
+    "tee": b_tee,
+    "itertools.tee": b_tee,
     "zip": b_zip,
     "reversed": b_reversed,
     "itertools.islice": b_islice,
